@@ -11,6 +11,7 @@ Finite tables are checked completely by kernel evaluation (`decide +kernel`), so
 equivalent rewrite of an expression in the source keeps the theorems true, a wrong one does not.
 -/
 import ZxVerif.Lemmas.VideoX
+set_option linter.unusedSimpArgs false
 namespace ZxVerif.C08X
 open ZxVerif.Video
 
@@ -287,7 +288,7 @@ theorem from_clocks_is_model (m : Machine) (t : Nat) :
     unfold Extracted.Video.fromClocks Blocks.fromClocks
     rw [g1, g2, e1, e2, c1, c2, c3, d1, d2, d3]
     simp only [decide_eq_true_eq]
-    (repeat' split) <;> first | rfl | (exfalso; omega) | (simp only [Prod.mk.injEq]; omega)
+    (repeat' split) <;> first | (exfalso; omega) | (with_reducible rfl) | (simp only [Prod.mk.injEq, and_true, true_and]; omega)
   · have g1 : (geomOf .k128).clocks_ula_read_origin = 14364 := by decide
     have g2 : (geomOf .k128).clocks_line = 228 := by decide
     have e1 : Machine.k128.ulaReadOrigin = 14364 := rfl
@@ -295,6 +296,6 @@ theorem from_clocks_is_model (m : Machine) (t : Nat) :
     unfold Extracted.Video.fromClocks Blocks.fromClocks
     rw [g1, g2, e1, e2, c1, c2, c3, d1, d2, d3]
     simp only [decide_eq_true_eq]
-    (repeat' split) <;> first | rfl | (exfalso; omega) | (simp only [Prod.mk.injEq]; omega)
+    (repeat' split) <;> first | (exfalso; omega) | (with_reducible rfl) | (simp only [Prod.mk.injEq, and_true, true_and]; omega)
 
 end ZxVerif.C08X
